@@ -106,6 +106,12 @@ def run_spec(spec, tier, seed, replay=None):
     ok_h, log_h = vlib.build_harness()
     if not ok_h:
         broken.append({"kind": "harness-build", "output": log_h[-3000:]})
+    if getattr(spec, "needs_cli", False):
+        log("%s: corrosion CLI" % spec.pid)
+        ok_c, log_c = vlib.build_cli()
+        if not ok_c:
+            broken.append({"kind": "cli-build", "output": log_c[-3000:]})
+            ok_h = False
 
     cases, impl, model = [], [], []
     diffs = []
